@@ -109,6 +109,7 @@ class State:
         s.results = dict(self.results)
         s.decided = dict(self.decided)
         s.retref = list(self.retref)
+        s.this_obj = list(getattr(self, 'this_obj', []))
         return s
 
     def ev(self, *e):
@@ -455,7 +456,8 @@ class Evaluator:
         yield from self.eval(sub, st)
 
     def e_CXXThisExpr(self, n, st):
-        yield st, ('this',)
+        # inside an inlined member function of a nested record, `this` is the object the function was called on
+        yield st, (st.this_obj[-1] if getattr(st, 'this_obj', None) else ('this',))
 
     def e_IntegerLiteral(self, n, st):
         yield st, ('int', int(n['value']))
@@ -1324,6 +1326,22 @@ class Evaluator:
             yield from self.inline(m, args, n, st)
             return
         tc = typeclass(qt(base))
+        rec = self.record_of(qt(base)) if tc == 'other' else None
+        if rec is not None and mid in getattr(rec, 'methods', {}):
+            # member function of a nested record (small private abstraction): inlined with `this` bound to the object
+            if mid not in self.ctx.lambdas:
+                lm = LambdaMethod(rec.methods[mid], '%s::%s' % (self.cm.name, rec.name))
+                lm.name = name
+                lm.qname = '%s::%s::%s' % (self.cm.name, rec.name, name)
+                self.ctx.lambdas[mid] = lm
+            for st2, recv in self.eval(base, st):
+                if callee.get('isArrow') and isinstance(recv, tuple) and recv and recv[0] == 'addr':
+                    recv = recv[1]
+                st2.this_obj = list(getattr(st2, 'this_obj', [])) + [recv]
+                for st3, rv_ in self.inline(self.ctx.lambdas[mid], args, n, st2):
+                    st3.this_obj = list(st3.this_obj[:-1])
+                    yield st3, rv_
+            return
         for st2, recv in self.eval(base, st):
             if tc == 'lockguard':
                 if name in ('lock', 'unlock', 'try_lock'):
